@@ -908,6 +908,25 @@ impl<'a> G<'a> {
     }
 
     fn stack(&mut self) {
+        if self.cfg.feat.flags_under_tf && self.r.chance(20) {
+            // an arbitrary word into the flag register (the trap flag stays as it is): the bits
+            // that are no flags, the top four included, may be anything afterwards
+            let mut w = self.r.next_u64() as u16;
+            if self.r.chance(40) {
+                w &= 0x0FFF;
+            }
+            w = (w & !0x0100) | if self.tf_on { 0x0100 } else { 0 };
+            let a = self.wreg();
+            let sw = self.num16(w);
+            self.ins(&format!("mov {}, {}", a, sw), "plain");
+            self.ins(&format!("push {}", a), "stack");
+            self.ins("popf", "popf");
+            if self.cfg.feat.prints {
+                self.ins("print flags", "print");
+            }
+            self.tag("popf_arbitrary_word");
+            return;
+        }
         match self.r.below(3) {
             0 => {
                 let a = self.wreg();
